@@ -185,10 +185,13 @@ func sendTCP(conn *net.TCPConn, b []byte) ([]byte, error) {
 	}
 	s := binary.BigEndian.Uint32(sh)
 
-	rb := make([]byte, s, s)
-	_, err = io.ReadFull(conn, rb)
+	// Read what the peer announced but allocate only as the bytes arrive: the length is the peer's claim.
+	rb, err := io.ReadAll(io.LimitReader(conn, int64(s)))
 	if err != nil {
 		return r, fmt.Errorf("error reading response: %v", err)
+	}
+	if uint32(len(rb)) != s {
+		return r, fmt.Errorf("error reading response: %d bytes announced, %d received", s, len(rb))
 	}
 	if len(rb) < 1 {
 		return r, fmt.Errorf("no response data from KDC %s", conn.RemoteAddr().String())
